@@ -1,3 +1,4 @@
+import Gonnx.Spec.Arity
 import DriverLib
 import Gonnx.Generated.Registry
 open Lean Gonnx Drv
@@ -12,10 +13,14 @@ def handle (j : Json) : Json :=
       match v with
       | .str s => some (dtOfString s)
       | _ => none
+    -- the arity ONNX prescribes (Spec/Arity.lean), for the judge: independent of what the code declares
+    let ar : List (String × Json) := match Spec.arityOf op with
+      | some (mn, mx) => [("arity", Json.arr #[toJson mn, toJson mx])]
+      | none => []
     match gate Generated.registry op dts with
-    | .ok r => Json.mkObj [("model", Json.mkObj [("status", "ok"),
-        ("pattern", Json.arr (r.map optDtJson).toArray)])]
-    | .error e => Json.mkObj [("model", errJson e)]
+    | .ok r => Json.mkObj ([("model", Json.mkObj [("status", "ok"),
+        ("pattern", Json.arr (r.map optDtJson).toArray)])] ++ ar)
+    | .error e => Json.mkObj ([("model", errJson e)] ++ ar)
   | "lookup" =>
     match lookup Generated.registry op with
     | .ok d => Json.mkObj [("model", Json.mkObj [("status", "ok"), ("str", d.str)])]
